@@ -77,6 +77,10 @@ func constantsCheck(rec *ev.Rec) {
 	if sq.Cmp(new(big.Int).Sub(ref.P, one)) != 0 {
 		bad("sqrt(-1) constant does not square to -1")
 	}
+	bp := ge25519.Basepoint
+	if a, ok := mon.Affine(&bp); !ok || !ref.Eq(a, ref.B) || !feqInt(new(big.Int).Mul(mon.FVal(bp.VerifT()), mon.FVal(bp.Z())), new(big.Int).Mul(mon.FVal(bp.X()), mon.FVal(bp.Y()))) {
+		bad("the base point constant of the group package is not B (or its extended coordinate is inconsistent)")
+	}
 	for i := 0; i < 32; i++ {
 		ys, xa, t2 := ge25519.VerifSlidingMultiple(i)
 		pt := ref.ScalarMult(big.NewInt(int64(2*i+1)), ref.B)
@@ -88,6 +92,10 @@ func constantsCheck(rec *ev.Rec) {
 			bad(fmt.Sprintf("precomputed multiple [%d]B of the double-base table is not (y-x, y+x, 2dxy)", 2*i+1))
 		}
 	}
+}
+
+func feqInt(a, b *big.Int) bool {
+	return new(big.Int).Mod(a, ref.P).Cmp(new(big.Int).Mod(b, ref.P)) == 0
 }
 
 func moveCondWorkload(rng *rand.Rand, rec *ev.Rec, n int) {
